@@ -240,6 +240,7 @@ func runC19(r *Run) {
 	type bcase struct {
 		out   string
 		vals  string
+		held  map[string]string // tag -> held value in the oracle's value syntax, for every field
 		inSet map[string]string // tag -> expected line value for non-default fields (by construction unknown; derived from parse)
 	}
 	var bcases []*bcase
@@ -274,7 +275,20 @@ func runC19(r *Run) {
 				vals = append(vals, fmt.Sprintf("%s=s:%s", hx([]byte(name)), hx([]byte(s))))
 			}
 		}
-		bc := &bcase{out: b.String(), vals: strings.Join(vals, ",")}
+		held := map[string]string{}
+		for f := 0; f < st.NumField(); f++ {
+			fld := v.Field(f)
+			tag := st.Field(f).Tag.Get("rdp")
+			switch fld.Kind() {
+			case reflect.Bool:
+				held[tag] = "i:" + b01(fld.Bool())
+			case reflect.Int:
+				held[tag] = fmt.Sprintf("i:%d", fld.Int())
+			case reflect.String:
+				held[tag] = "s:" + hx([]byte(fld.String()))
+			}
+		}
+		bc := &bcase{out: b.String(), vals: strings.Join(vals, ","), held: held}
 		if bc.vals == "" {
 			bc.vals = "_"
 		}
@@ -305,9 +319,41 @@ func runC19(r *Run) {
 			r.Violation("c19-builder-form", "the builder wrote a line that is not CRLF-terminated name:type:value", fmt.Sprintf("%q\n", bc.out))
 			continue
 		}
-		if _, err := p.Unmarshal([]byte(bc.out)); err != nil {
+		back, err := p.Unmarshal([]byte(bc.out))
+		if err != nil {
 			r.Violation("c19-builder-unparseable", "the gateway's own reader rejects what the builder wrote", fmt.Sprintf("%q\n%v\n", bc.out, err))
 			continue
+		}
+		// reading back yields exactly the settings the builder held: a line says the held value,
+		// an absent line means the held value is the built-in default
+		for f := 0; f < st.NumField(); f++ {
+			tag := st.Field(f).Tag.Get("rdp")
+			def := st.Field(f).Tag.Get("default")
+			var want string
+			if pv, ok := back[tag]; ok {
+				switch x := pv.(type) {
+				case int:
+					want = fmt.Sprintf("i:%d", x)
+				case string:
+					want = "s:" + hx([]byte(x))
+				}
+			} else {
+				switch st.Field(f).Type.Kind() {
+				case reflect.Bool:
+					want = "i:" + b01(def == "true" || def == "1")
+				case reflect.Int:
+					n := 0
+					fmt.Sscanf(def, "%d", &n)
+					want = fmt.Sprintf("i:%d", n)
+				case reflect.String:
+					want = "s:" + hx([]byte(def))
+				}
+			}
+			if bc.held[tag] != want {
+				r.Violation("c19-builder-readback", "reading the generated file back does not yield the setting the builder held",
+					fmt.Sprintf("setting %q: builder held %s, file says %s\nfile: %q\n", tag, bc.held[tag], want, bc.out))
+				break
+			}
 		}
 		if bans[i] != hx([]byte(bc.out)) {
 			note(fmt.Sprintf("Builder.String() differs from the model\nvalues: %s\nimpl:  %q\nmodel: %q\n", bc.vals, bc.out, unhx(bans[i])))
